@@ -212,24 +212,30 @@ class LastLook(Auto):
     name = "last-look"
 
     def initial(self):
-        return ("I", None)
+        return ("I", None, None)
 
     def key(self, s):
         return s[0]
 
     def event(self, state, ev, where):
         if ev[0] == "prim" and ev[1] == "look":
-            return ("O", "%s [%s]" % (short(where[1].id), where[1].loc(where[2])))
+            return ("O", "%s [%s]" % (short(where[1].id), where[1].loc(where[2])), ev[3] if len(ev) > 3 else "look")
         if ev[0] == "prim" and ev[1] in ("request", "request_more"):
-            return ("O", "%s [%s] explicit request" % (short(where[1].id), where[1].loc(where[2])))
+            return ("O", "%s [%s] explicit request" % (short(where[1].id), where[1].loc(where[2])), None)
         if ev[0] == "narrow" and ev[1] == "look":
+            # the answer that is being examined may be an older one (`let a = look(o); let b = look(o + 1); match (a, b)`):
+            # what counts is the most recent request, and that one went further
+            last = state[2] if len(state) > 2 else None
+            if len(ev) > 3 and last is not None and ev[3] != last and ("@" in ev[3] or "@" in last):
+                return state
             names = dict(ev[2][2])
             site = "%s [%s]" % (short(where[1].id), where[1].loc(where[2]))
+            state = (state[0], state[1], last)
             if set(names) == {"None"}:
-                return ("E", site)
+                return ("E", site, last)
             if set(names) == {"Some"} and names["Some"] is not None and names["Some"][0] == "byte" and names["Some"][1] == (1 << 10):
-                return ("X", site)
-            return ("O", site)
+                return ("X", site, last)
+            return ("O", site, last)
         return state
 
 
